@@ -85,7 +85,7 @@ def conv_float(s):
         if v in (float("inf"), float("-inf")):
             return ("bad",)
         if v == 0.0 and re.search(r"[1-9]", re.split(r"[eE]", s)[0]):
-            return ("grey", None)     # underflow
+            return ("bad",)           # underflow to zero: the value would silently be truncated
         if v != 0.0 and abs(v) < 2.2250738585072014e-308:
             return ("grey", None)     # denormal
         return ("ok", v)
